@@ -292,17 +292,31 @@ fn body(case: &Val) -> Val {
                 return Val::text("ok");
             }
             let mut cap = Cap { ev: vec![], cur: vec![], intr, calls: 0 };
-            let r = enc.encode(
-                &mut cap,
-                &log::Record::builder()
-                    .level(lvl)
-                    .target(&target)
-                    .module_path(module.as_deref())
-                    .file(file.as_deref())
-                    .line(line)
-                    .args(format_args!("{}", Reentrant { text: &msg, on: mode == 6 }))
-                    .build(),
-            );
+            let mut go = |args: std::fmt::Arguments| {
+                enc.encode(
+                    &mut cap,
+                    &log::Record::builder()
+                        .level(lvl)
+                        .target(&target)
+                        .module_path(module.as_deref())
+                        .file(file.as_deref())
+                        .line(line)
+                        .args(args)
+                        .build(),
+                )
+            };
+            // A message that is one of these texts is handed over as `format_args!("<the text>")` - a template
+            // without arguments, for which Arguments::as_str() is Some (what `info!("a fixed text")` produces) -
+            // every other one through `{}` (as_str() is None): the message is the same text either way.
+            macro_rules! literal_or_display {
+                ($($lit:literal),*) => {
+                    match msg.as_str() {
+                        $($lit if mode != 6 => go(format_args!($lit)),)*
+                        _ => go(format_args!("{}", Reentrant { text: &msg, on: mode == 6 })),
+                    }
+                };
+            }
+            let r = literal_or_display!("hello", "", "héllo wörld", "é", " ", "line1\nline2", "xxxxxxxxxxxxxxxxxxxx", "中文", "0");
             cap.flush_text();
             match r {
                 Ok(()) => Val::L(cap.ev),
